@@ -81,6 +81,25 @@ def check_layout(rng):
     for t in range(len(pts)):
         if abs(wm[f"q{t}"] - w.get(t, 0.0)) > 1e-12 or abs(wm2[f"q{t}"] - w.get(t, 0.0)) > 1e-12:
             out.append(f"detuning map gives trap {t} weight {wm[f'q{t}']} / {wm2[f'q{t}']}, expected {w.get(t, 0.0)}")
+    # detuning map built directly from raw (unrounded, unsorted) trap coordinates: the weight given with a trap stays with that trap
+    from pulser.register.weight_maps import DetuningMap
+    raw_w = [round(rng.random(), 3) for _ in pts]
+    tot = sum(raw_w) or 1.0
+    raw_w = [v / tot for v in raw_w]
+    perm = list(range(len(pts)))
+    rng.shuffle(perm)
+    for order in (list(range(len(pts))), perm):
+        dmr = DetuningMap([pts[i] for i in order], [raw_w[i] for i in order])
+        by_pos = {tuple(round(x, 6) + 0.0 for x in pts[i]): raw_w[i] for i in range(len(pts))}
+        got = dmr.get_qubit_weight_map(full.qubits)
+        for t in range(len(pts)):
+            e = by_pos[tuple(sc[t].tolist())]
+            if abs(got[f"q{t}"] - e) > 1e-12:
+                out.append(f"DetuningMap(raw coords) gives the qubit on trap {t} weight {got[f'q{t}']}, the weight given with that trap is {e}: {pts}")
+                break
+        sw = np.asarray(dmr.sorted_weights, dtype=float)
+        if any(abs(sw[t] - by_pos[tuple(sc[t].tolist())]) > 1e-12 for t in range(len(pts))):
+            out.append(f"DetuningMap(raw coords).sorted_weights is not in trap order: {pts}")
     return out
 
 
